@@ -185,3 +185,34 @@ package metadatapart
 //@ effect[C08:one-reference-per-shared-existing-part] every mbs.metadataStore.TryAddPartReferences(_, _, $ids) if same($ids, partIDs) where existingObject != nil && len($ids) == len(existingObject.Parts)
 //@ effect[C08:no-append-when-the-references-were-refused] every mbs.metadataStore.TryAddPartReferences(_, _, $ids) -> ($ok, $e) if same($ids, partIDs) && (!$ok || $e != nil)
 //@     forbids after mbs.metadataStore.AppendObject(_, _, _, _, _)
+
+// C01. Read-back plumbing. What HeadObject / GetObject report is the metadata row, field by field; the readers of a
+// GetObject are planned from the object read in this very transaction, for the ranges that were normalised against
+// its size; they carry the transaction exactly when the part stores need one (tx-free streaming: no transaction and
+// the pre-transaction context, so that no finished transaction is ever reused).
+//@ func convertObject
+//@ mode nosafety
+//@ ensures[C01:reported-object-is-the-metadata-row] result.Key == mObject.Key && specSameOpt(result.ContentType, mObject.ContentType) && result.Size == mObject.Size &&
+//@     result.ETag == mObject.ETag && specSameOpt(result.VersionID, mObject.VersionID) && result.IsDeleteMarker == mObject.IsDeleteMarker &&
+//@     result.LastModified.Equal(mObject.LastModified) && specSameOpt(result.StorageClass, mObject.StorageClass) && same(result.Tags, mObject.Tags) &&
+//@     specSameOpt(result.ChecksumCRC32, mObject.ChecksumCRC32) && specSameOpt(result.ChecksumCRC32C, mObject.ChecksumCRC32C) && specSameOpt(result.ChecksumCRC64NVME, mObject.ChecksumCRC64NVME) &&
+//@     specSameOpt(result.ChecksumSHA1, mObject.ChecksumSHA1) && specSameOpt(result.ChecksumSHA256, mObject.ChecksumSHA256) && specSameOpt(result.ChecksumType, mObject.ChecksumType) &&
+//@     specSameSystemMetadata(result.Metadata, mObject.Metadata) && same(result.Metadata.UserMetadata, mObject.Metadata.UserMetadata)
+
+//@ func (*metadataPartStorage).GetObject$1
+//@ mode effects
+//@ trust nonnil metadatastore.MetadataStore.HeadObject
+//@ trust nonnil metadatastore.MetadataStore.HeadObjectVersion
+//@ effect[C01:readers-planned-from-the-object-read] every mbs.createRangeReader($c, $t, $o, $r) where $o == object
+//@ effect[C01:readers-carry-the-transaction-iff-the-stores-need-one] every mbs.createRangeReader($c, $t, $o, $r)
+//@     where (txFreeStreaming ==> $t == nil && $c == streamCtx) && (!txFreeStreaming ==> $t == tx && $c == ctx)
+//@ effect[C01:ranges-normalised-against-the-objects-size] every normalizeAndValidateRanges($rs, $size) where $size == object.Size
+//@ effect[C01:object-looked-up-under-the-requested-name] every mbs.metadataStore.HeadObject(_, _, $b, $k) where $b == bucketName && $k == key
+
+// A whole-object read (no range) is never refused as an invalid range and an empty object is readable.
+//@ func (*metadataPartStorage).createRangeReader
+//@ mode effects
+//@ requires object != nil
+//@ ensures[C01:whole-object-read-not-refused] byteRange.Start == nil && byteRange.End == nil && err == storage.ErrInvalidRange ==> called(mbs.partStores.ByName)
+//@ ensures[C01:empty-object-readable] byteRange.Start == nil && byteRange.End == nil && len(object.Parts) == 0 ==> err == nil
+//@ effect[C01:part-read-from-the-store-named-by-its-row] every mbs.partStores.ByName($n) where specSameOpt($n, part.StoreName)
